@@ -854,7 +854,257 @@ def gen_order(src):
                      'SlacProps/C13Source.lean proves that `Value.cmp` / `Value.eq` / `Value.isEmpty` / `Value.asBool` of SlacModel/Value.lean are these functions.',
                      'SlacModel.Value', 'SrcOrder') + body + '\nend Slac.Generated.SrcOrder\n'
 
-TARGETS = (('SrcValidate', gen_validate), ('SrcOptimizer', gen_optimizer), ('SrcEnv', gen_env), ('SrcOrder', gen_order))
+
+# =====================================================================================================================
+# effectful functions (src/interpreter.rs): everything that evaluates sub-expressions or calls the environment is translated into the
+# writer monad `W N` of SlacModel/SrcPrelude.lean, whose log is the sequence of `Environment::variable` / `Environment::call` events.
+# Rust's evaluation order (statements in order, arguments left to right, `?` returns at once, iterators are lazy and
+# `collect::<Result<_>>()` stops at the first `Err`) becomes the order of the binds.
+
+class EffCtx(Ctx):
+    """`impl TreeWalkingInterpreter`: `expression` is the one recursive function; the helpers it dispatches to (unary, binary, boolean,
+       ternary, array, variable, call, get_values) are INLINED at their call sites (their parameters bound by `let`), so that the
+       recursion is structural on the tree."""
+    def __init__(self, src_text, **kw):
+        super().__init__(**kw); self.src_text = src_text; self.n = 0; self.depth = 0
+    def gensym(self, base='t'):
+        self.n += 1; return f'{base}{self.n}'
+
+    EFFECTFUL_METHODS = ('expression', 'unary', 'binary', 'boolean', 'ternary', 'array', 'variable', 'call', 'get_values')
+
+    def effectful(self, e):
+        """does evaluating e perform environment events?"""
+        if isinstance(e, tuple):
+            if e and e[0] == 'mcall':
+                recv = e[1]
+                if recv == ('path', ['self']) and e[2] in self.EFFECTFUL_METHODS: return True
+                if recv == ('field', ('path', ['self']), 'environment') and e[2] in ('variable', 'call'): return True
+            if e and e[0] == 'closure': return False if not self._eff_any(e[2]) else True
+            return any(self.effectful(x) for x in e[1:])
+        if isinstance(e, list): return any(self.effectful(x) for x in e)
+        return False
+    def _eff_any(self, e): return self.effectful(e)
+    def has_try(self, e):
+        if isinstance(e, tuple):
+            if e and e[0] == 'try': return True
+            if e and e[0] == 'closure': return False
+            return any(self.has_try(x) for x in e[1:])
+        if isinstance(e, list): return any(self.has_try(x) for x in e)
+        return False
+
+    # ---- pure layer: value operators of the interpreter ---------------------------------------------------------------------------
+    def tx(self, e, env):
+        e0 = self.strip_refs(e)
+        if e0[0] == 'unop' and e0[1] in ('-', '!'):
+            s, t = self.tx(e0[2], env)
+            if t == 'value': return (f'Value.neg {self.paren(s)}' if e0[1] == '-' else f'Value.not {self.paren(s)}'), ('res', 'value')
+        if e0[0] == 'binop':
+            l, lt = self.tx(e0[2], env); r, rt = self.tx(e0[3], env); op = e0[1]
+            if lt == 'value' and rt == 'value':
+                L, Rr = self.paren(l), self.paren(r)
+                table = {'+': f'Value.add {L} {Rr}', '-': f'Value.arith NumOps.sub .minus {L} {Rr}', '*': f'Value.arith NumOps.mul .multiply {L} {Rr}',
+                         '/': f'Value.arith NumOps.div .divide {L} {Rr}', '%': f'Value.arith NumOps.rem .mod {L} {Rr}', '^': f'Value.xor {L} {Rr}'}
+                if op in table: return table[op], ('res', 'value')
+                cmpt = {'>': 'Value.gt', '>=': 'Value.ge', '<': 'Value.lt', '<=': 'Value.le'}
+                if op in cmpt: return f'{cmpt[op]} {L} {Rr}', 'bool'
+                if op == '==': return f'Value.eq {L} {Rr}', 'bool'
+                if op == '!=': return f'!(Value.eq {L} {Rr})', 'bool'
+        if e0[0] == 'mcall' and e0[2] == 'div_int' and len(e0[4]) == 1:
+            l, lt = self.tx(e0[1], env); r, rt = self.tx(e0[4][0], env)
+            if lt == 'value' and rt == 'value': return f'Value.arith (fun a b => NumOps.trunc (NumOps.div a b)) .div {self.paren(l)} {self.paren(r)}', ('res', 'value')
+        if e0[0] == 'mcall' and e0[2] == 'map' and len(e0[4]) == 1 and e0[4][0][0] == 'closure':
+            s, t = self.tx(e0[1], env)
+            if isinstance(t, tuple) and t[0] == 'opt':
+                cl = e0[4][0]; env1 = dict(env); p = self.pat(cl[1][0], t[1], env1); b, bt = self.tx(cl[2], env1)
+                return f'Option.map (fun {p} => {b}) {self.paren(s)}', ('opt', bt)
+        if e0[0] == 'mcall' and e0[2] == 'map_err' and len(e0[4]) == 1 and e0[4][0][0] == 'closure':
+            s, t = self.tx(e0[1], env)
+            if isinstance(t, tuple) and t[0] == 'nres':
+                cl = e0[4][0]; env1 = dict(env); p = self.pat(cl[1][0], 'nerr', env1); b, bt = self.tx(cl[2], env1)
+                return f'Except.mapError (fun {p} => {b}) {self.paren(s)}', ('res', t[1])
+        if e0 == ('field', ('path', ['self']), 'environment'): return 'env', 'env'
+        return super().tx(e, env)
+
+    # ---- monadic layer ----------------------------------------------------------------------------------------------------------------
+    def mtx(self, e, env, k, kret):
+        """CPS: the Lean `do`-body (text) that evaluates e and continues with k(text_of_value, type, env); `kret(text, type)` is what
+           happens when the enclosing FUNCTION returns a value (used by `?`)."""
+        e = self.strip_refs(e) if e[0] in ('unop', 'mcall', 'call') else e
+        if not self.effectful(e) and not self.has_try(e):
+            s, t = self.tx(e, env); return k(s, t, env)
+        kind = e[0]
+        if kind == 'try':
+            def after(s, t, env2):
+                if not (isinstance(t, tuple) and t[0] == 'res'): raise Unrecognised('? on a non-Result')
+                v = self.gensym('v')
+                ok = k(v, t[1], self.bindv(env2, v, t[1]))
+                return f'match {s} with\n| .error er => {self.oneline(kret(".error er", ("res", None)))}\n| .ok {v} =>\n  {self.indent(ok)}'
+            return self.mtx(e[1], env, after, kret)
+        if kind == 'block':
+            return self.mblock(e, env, k, kret)
+        if kind == 'match':
+            return self.mmatch(e, env, k, kret)
+        if kind == 'if':
+            def after(c, ct, env2):
+                if ct != 'bool': raise Unrecognised('if on a non-bool')
+                a = self.mtx(e[2], dict(env2), k, kret); b = self.mtx(e[3], dict(env2), k, kret)
+                return f'if {c} then\n  {self.indent(a)}\nelse\n  {self.indent(b)}'
+            return self.mtx(e[1], env, after, kret)
+        if kind == 'mcall':
+            recv, name, tf, args = e[1], e[2], e[3], e[4]
+            if recv == ('path', ['self']) and name == 'expression' and len(args) == 1:
+                def after(a, at, env2):
+                    t = self.gensym('r'); return f'let {t} ← interp_expression env {self.paren(a)}\n' + k(t, ('res', 'value'), self.bindv(env2, t, ('res', 'value')))
+                return self.mtx(args[0], env, after, kret)
+            if recv == ('path', ['self']) and name in self.EFFECTFUL_METHODS:
+                return self.inline(name, tf, args, env, k, kret)
+            if recv == ('field', ('path', ['self']), 'environment') and name in ('variable', 'call'):
+                def with_args(texts, env2):
+                    t = self.gensym('r')
+                    if name == 'variable': return f'let {t} ← envVariable env {" ".join(self.paren(x) for x in texts)}\n' + k(t, ('opt', 'value'), self.bindv(env2, t, ('opt', 'value')))
+                    return f'let {t} ← envCall env {" ".join(self.paren(x) for x in texts)}\n' + k(t, ('nres', 'value'), self.bindv(env2, t, ('nres', 'value')))
+                return self.margs(args, env, with_args, kret)
+            # lazy iterator collected into a Result: stops at the first Err
+            if name == 'collect' and tf and 'Result' in tf and recv[0] == 'mcall' and recv[2] == 'map' and recv[1][0] == 'mcall' and recv[1][2] == 'iter' and len(recv[4]) == 1 and recv[4][0][0] == 'closure':
+                xs, xt = self.tx(recv[1][1], env); cl = recv[4][0]
+                if xt != 'exprs': raise Unrecognised('collect over a non-expression list')
+                aux = self.collect_aux(cl, env)
+                t = self.gensym('r'); return f'let {t} ← {aux} env {self.paren(xs)}\n' + k(t, ('res', 'values'), self.bindv(env, t, ('res', 'values')))
+            # a pure method whose receiver or arguments are effectful: evaluate receiver, then the effectful arguments, in order
+            def after_recv(rs, rt, env2):
+                v = self.gensym('x'); env3 = self.bindv(env2, v, rt)
+                eff_args = [a for a in args if self.effectful(a) or self.has_try(a)]
+                def with_args2(pairs, env4):
+                    it = iter(pairs)
+                    new_args = [('path', [next(it)[0]]) if (self.effectful(a) or self.has_try(a)) else a for a in args]
+                    s2, t2 = self.tx(('mcall', ('path', [v]), name, tf, new_args), env4); return k(s2, t2, env4)
+                return f'let {v} := {rs}\n' + self.hoist(eff_args, env3, with_args2, kret)
+            return self.mtx(recv, env, after_recv, kret)
+        if kind == 'call':
+            f = e[1]
+            eff_args = [a for a in e[2] if self.effectful(a) or self.has_try(a)]
+            def with_args2(pairs, env4):
+                it = iter(pairs)
+                new_args = [('path', [next(it)[0]]) if (self.effectful(a) or self.has_try(a)) else a for a in e[2]]
+                s2, t2 = self.tx(('call', f, new_args), env4); return k(s2, t2, env4)
+            return self.hoist(eff_args, env, with_args2, kret)
+        raise Unrecognised(f'effectful expression of kind {kind}')
+
+    def oneline(self, s): return s if '\n' not in s else '(' + s.replace('\n', '\n ') + ')'
+    def bindv(self, env, name, ty):
+        env = dict(env); env[name] = (name, ty); return env
+    def alias(self, env, text, i): return text
+
+    def hoist(self, args, env, k2, kret):
+        """evaluate args left to right; every one is bound to a fresh name (pure ones by `let :=`); k2([(name, type)], env)"""
+        def go(i, acc, env_i):
+            if i == len(args): return k2(acc, env_i)
+            a = args[i]
+            def after(s, t, env2):
+                if re.fullmatch(r"[A-Za-z_][\w']*", s) and s in env2 and env2[s][0] == s: return go(i + 1, acc + [(s, t)], env2)     # already a variable
+                n = self.gensym('a'); env3 = self.bindv(env2, n, t)
+                try: ann = f' : {lean_type(t, self.errty)}'
+                except Unrecognised: ann = ''
+                return f'let {n}{ann} := {s}\n' + go(i + 1, acc + [(n, t)], env3)
+            return self.mtx(a, env_i, after, kret)
+        return go(0, [], env)
+    def margs(self, args, env, k2, kret):
+        def go(i, acc, env_i):
+            if i == len(args): return k2(acc, env_i)
+            return self.mtx(args[i], env_i, lambda s, t, env2: go(i + 1, acc + [s], env2), kret)
+        return go(0, [], env)
+
+    def mblock(self, e, env, k, kret):
+        _, stmts, tail = e
+        def go(i, env_i):
+            if i == len(stmts):
+                if tail is None: raise Unrecognised('block without value')
+                return self.mtx(tail, env_i, k, kret)
+            st = stmts[i]
+            if st[0] != 'let': raise Unrecognised('statement in an effectful block')
+            def after(s, t, env2):
+                env3 = dict(env2); p = self.pat(st[1], t, env3)
+                return f'let {p} := {s}\n' + go(i + 1, env3)
+            return self.mtx(st[2], env_i, after, kret)
+        return go(0, dict(env))
+
+    def mmatch(self, e, env, k, kret):
+        _, scrut, arms = e
+        sc = self.strip_refs(scrut)
+        parts = sc[1] if sc[0] == 'tuple' else [sc]
+        def with_scrut(pairs, env2):
+            stext = ', '.join(n for n, _ in pairs); sty = ('tuple', [t for _, t in pairs]) if sc[0] == 'tuple' else pairs[0][1]
+            lines = []
+            for pats, g, b in arms:
+                if g is not None: raise Unrecognised('guard in an effectful match')
+                for p in pats:
+                    env3 = dict(env2); pt = self.pat(p, sty, env3)
+                    body = self.mtx(b, env3, k, kret)
+                    lines.append(f'| {pt} =>\n    {self.indent(self.indent(body))}')
+            return f'match {stext} with\n' + '\n'.join(lines)
+        return self.hoist(parts, env, with_scrut, kret)
+
+    def inline(self, name, tf, args, env, k, kret):
+        """`self.<helper>(args)`: the helper's body with its parameters bound to the (already evaluated, pure) arguments; the helper's
+           `return` / `?` continue with k"""
+        self.depth += 1
+        if self.depth > 12: raise Unrecognised('helper functions call each other recursively')
+        f = find_fn(self.src_text, name)
+        params = [(n, t) for n, t in f['params'] if n != 'self']
+        if len(params) != len(args): raise Unrecognised(f'arity of {name}')
+        consts = {}
+        if tf:
+            m = re.fullmatch(r'<\s*(true|false)\s*>', tf)
+            g = re.search(r'fn\s+' + name + r'\s*<\s*const\s+(\w+)\s*:\s*bool\s*>', self.src_text)
+            if not m or not g: raise Unrecognised(f'generic arguments of {name}')
+            consts[g.group(1)] = (m.group(1), 'bool')
+        def with_args(pairs, env2):
+            env3 = dict(env2); env3.update(consts); pre = []
+            for (pn, pty), (an, at) in zip(params, pairs):
+                ty = rust_type(pty, self.selfty) if pty.strip() in RUST_TYPE else at
+                if isinstance(ty, tuple) and ty[0] == 'mut': raise Unrecognised('&mut parameter of a helper')
+                if pn != an: pre.append(f'let {pn} := {an}')
+                env3[pn] = (pn, at if at is not None else ty)
+            body = self.mtx(f['body'], env3, lambda s, t, env4: k(s, t, env2), lambda s, t: k(s, t, env2))
+            return ('\n'.join(pre) + '\n' if pre else '') + body
+        out = self.hoist(args, env, with_args, kret)
+        self.depth -= 1
+        return out
+
+    def collect_aux(self, cl, env):
+        name = 'get_values_each'
+        if not any(a.startswith(f'def {name} ') for a in self.aux):
+            env1 = {'env': ('env', 'env')}; p = self.pat(cl[1][0], 'expr', env1)
+            body = self.mtx(cl[2], env1,
+                            lambda s, t, e2: (f'match {s} with\n| .error er => pure (.error er)\n| .ok v =>\n  let rest ← {name} env rest\n  match rest with\n  | .error er => pure (.error er)\n  | .ok vs => pure (.ok (v :: vs))'),
+                            lambda s, t: f'pure ({s})')
+            self.aux.append(f'def {name} (env : Env N) : List (Expr N) → W N (Except Err (List (Value N)))\n  | [] => pure (.ok [])\n  | {p} :: rest => do\n    {self.indent(self.indent(body))}')
+        return name
+
+def gen_interp(src):
+    s = strip_tests(open(os.path.join(src, 'interpreter.rs')).read())
+    RUST_TYPE.update({'Operator': 'op', '&Value': 'value', 'Result <Value>': ('res', 'value'), 'Result <Vec <Value>>': ('res', 'values')})
+    c = EffCtx(s, errs=RERR, errty='Err', selfty='interp')
+    # `interprete` / `execute` must be `TreeWalkingInterpreter::new(env).expression(expression)`
+    it = find_fn(s, 'interprete')
+    want = ('block', [], ('mcall', ('call', ('path', ['TreeWalkingInterpreter', 'new']), [('path', ['env'])]), 'expression', None, [('path', ['expression'])]))
+    if it['body'] != want: raise Unrecognised('interprete() is not `TreeWalkingInterpreter::new(env).expression(expression)`')
+    lib = strip_tests(open(os.path.join(src, 'lib.rs')).read())
+    ex = find_fn(lib, 'execute')
+    exb = ex['body']
+    if not (exb[0] == 'block' and exb[1] == [] and exb[2] and exb[2][0] == 'call' and exb[2][1][0] == 'path' and exb[2][1][1][-2:] == ['TreeWalkingInterpreter', 'interprete']
+            and exb[2][2] == [('path', ['env']), ('path', ['ast'])]):
+        raise Unrecognised('execute() is not `TreeWalkingInterpreter::interprete(env, ast)`')
+    f = find_fn(s, 'expression')
+    env = {'expression': ('expression', 'expr'), 'env': ('env', 'env')}
+    c.cur = 'expression'; c.cur_params = [('env', 'env'), ('expression', 'expr')]
+    body = c.mtx(f['body'], env, lambda t, ty, e2: f'pure ({t})' if not t.startswith('pure ') else t, lambda t, ty: f'pure ({t})')
+    d = f'def interp_expression (env : Env N) (expression : Expr N) : W N (Except Err (Value N)) := do\n  {c.indent(body)}'
+    return (HEADER % ('SrcInterp', 'interpreter.rs (`TreeWalkingInterpreter`: expression, unary, binary, boolean, ternary, get_values, array, variable, call) and `execute` of lib.rs',
+                      'SlacProps/C04Source.lean proves that `evalT` of SlacModel/Interp.lean (result AND event trace) is this function.', 'SlacModel.SrcPrelude', 'SrcInterp')
+            + 'open Slac.SrcPrelude\n\n' + mutual([d] + c.aux) + '\nend Slac.Generated.SrcInterp\n')
+
+TARGETS = (('SrcInterp', gen_interp), ('SrcValidate', gen_validate), ('SrcOptimizer', gen_optimizer), ('SrcEnv', gen_env), ('SrcOrder', gen_order))
 
 def main():
     a = sys.argv[1:]
